@@ -220,6 +220,37 @@ PROPS["C04"] = {
                          "full single-field statement for the signed-entity VARIANT is FALSE (C04_entity_collision_cert): known finding C04-entity-variant"],
 }
 
+PROPS["C03"] = {
+    "lean_modules": ["MithrilModel.Properties.C03"],
+    "theorems": [
+        "C03.C03_chain_sound", "C03.C03_finite", "C03.C03_rejects_nonchained_signers", "C03.C03_forward_link_counterexample_prefix",
+        "C03.C03_client_sound", "C03.C03_cache_counterexample_prefix", "C03.ValidD_valid", "Chain.verifyChain_sound",
+        "Chain.client_sound", "Chain.verifyChain_of_locally_good",
+    ],
+    "level_text": "Soundness of the common verifier (acceptance implies a finite valid chain to a genesis certificate under the configured key, "
+                  "with exactly the property's link relation) and of the client's two loops with the verifier cache (under the cache "
+                  "invariant) are Lean theorems over every retriever behaviour; both hold for the code after two fix commits whose "
+                  "counter-examples are kept. The verifier model is compared, verdict and error class, with the real "
+                  "MithrilCertificateVerifier over chains from CertificateChainBuilder with an adversarial retriever (fields altered with and "
+                  "without rehashing, links re-targeted to every other certificate, adversary-signed certificates spliced, fake parents, "
+                  "loops, dropped or wrong certificates, other genesis keys); every accepted case is re-walked against the specification.",
+    "level_note": "Integrity bits of each served certificate are computed by the harness with the real primitives (C04 hash, STM verifier "
+                  "of C01, Ed25519); hashes are abstract identifiers, collision-freeness enters as HashBinding. The client's cache loops "
+                  "are modelled and proved; their correspondence run lives in the client harness (c03c).",
+    "harness": [("harness", "c03")],
+    "anchors": ["mithril-common/src/certificate_chain/certificate_verifier.rs", "mithril-common/src/entities/certificate.rs",
+                "mithril-common/src/entities/epoch.rs", "mithril-common/src/crypto_helper/genesis/verifier.rs",
+                "mithril-client/src/certificate_client/verify.rs"],
+    "rule": "chain = 3-8 (12 thorough) certificates, 1-3 per epoch, constant or varying signer sets, both chaining methods; case = (start "
+            "certificate, served map) for the honest provider and ~20 kinds of adversarial answers at every position; all non-trivial; "
+            "distinct request lines",
+    "trivial_tags": [],
+    "trusted_base": ["rustc/cargo; harness bin c03; ed25519-dalek; STM verifier (C01)"],
+    "assumptions": ["default features (future_snark off): only concatenation multi-signatures"],
+    "goals_not_proved": ["C03_acyclic as a separate theorem (cycles are excluded through C03_finite + content-hash binding)",
+                         "C03_cache_inv_step (store_validated_certificate preserves CacheInv): not stated"],
+}
+
 
 # property configurations contributed as separate files: props.d/Cxx.py defines `CONFIG = {...}`
 import glob as _glob, os as _os, importlib.util as _ilu
